@@ -330,28 +330,28 @@ class Prefixed(BaseModel):
 
     # Comparison operators that respect class convention
     def __lt__(self, other) -> bool:
-        lhs, rhs = _scale_to_smaller(self, other)
-        return round(lhs.number, EPSILON) < round(rhs.number, EPSILON)
+        lhs, rhs = _rounded_to_smaller(self, other)
+        return lhs < rhs
 
     def __le__(self, other) -> bool:
-        lhs, rhs = _scale_to_smaller(self, other)
-        return round(lhs.number, EPSILON) <= round(rhs.number, EPSILON)
+        lhs, rhs = _rounded_to_smaller(self, other)
+        return lhs <= rhs
 
     def __eq__(self, other) -> bool:
-        lhs, rhs = _scale_to_smaller(self, other)
-        return round(lhs.number, EPSILON) == round(rhs.number, EPSILON)
+        lhs, rhs = _rounded_to_smaller(self, other)
+        return lhs == rhs
 
     def __ne__(self, other) -> bool:
-        lhs, rhs = _scale_to_smaller(self, other)
-        return round(lhs.number, EPSILON) != round(rhs.number, EPSILON)
+        lhs, rhs = _rounded_to_smaller(self, other)
+        return lhs != rhs
 
     def __gt__(self, other) -> bool:
-        lhs, rhs = _scale_to_smaller(self, other)
-        return round(lhs.number, EPSILON) > round(rhs.number, EPSILON)
+        lhs, rhs = _rounded_to_smaller(self, other)
+        return lhs > rhs
 
     def __ge__(self, other) -> bool:
-        lhs, rhs = _scale_to_smaller(self, other)
-        return round(lhs.number, EPSILON) >= round(rhs.number, EPSILON)
+        lhs, rhs = _rounded_to_smaller(self, other)
+        return lhs >= rhs
 
 
 # Union of the types which can be converted to `Prefixed`
@@ -414,13 +414,21 @@ def _scale_to_smaller(
     and is converted before scaling."""
 
     other = to_prefixed(other)
-    smaller = (
-        me.prefix
-        if me.number * Decimal(10**me.prefix.value)
-        < other.number * Decimal(10**other.prefix.value)
-        else other.prefix
-    )
+    smaller = me.prefix if me.prefix.value < other.prefix.value else other.prefix
     return me.scale(smaller), other.scale(smaller)
+
+
+def _rounded_to_smaller(
+    me: Prefixed, other: Union[Prefixed, ToPrefixed]
+) -> Tuple[Decimal, Decimal]:
+    """# The numbers of `me` and `other` at the smaller of the two prefixes, rounded to `EPSILON` places.
+    These are what the comparison operators compare. The rounding is done in the `_EXACT` context:
+    in the default context `round` fails for every number which has more than 28 digits *after* rounding,
+    e.g. for any two numbers more than eight decades apart."""
+
+    lhs, rhs = _scale_to_smaller(me, other)
+    with localcontext(_EXACT):
+        return round(lhs.number, EPSILON), round(rhs.number, EPSILON)
 
 
 # Common prefixes as single-character identifiers, and exposed in the module namespace.
